@@ -32,4 +32,13 @@ PROPS = {
   "level_note": "Trusted: Lean kernel; extractor; harness+driver; encoding/binary, io, protobuf Unmarshal (external parameter).",
   "assumptions": ["the reader is a finite byte string followed by io.EOF (clean) or a transport error (abrupt)"],
  },
+ "C12": {
+  "fact_files": ["inprocgrpc/in_process.go"],
+  "trusted_base": ["http.ServeMux exact matching of clean paths, net/url escaping and path.Clean (the model's cleanSegs is validated against path.Join only through end-to-end calls)",
+                   "strings.SplitN as modelled by Prim.splitN2 (validated by correspondence)"],
+  "partial": ["ServeMux / URL escaping behaviour is exercised end to end, not proved"],
+  "level_text": "Proof: Lean theorems over the Resolve model for every method-name byte string, every registry and both call kinds: the in-process resolution never panics (guards regenerated from source), a handler runs iff the normalised name is exactly /svc/mth with svc registered and mth a method of that kind and then it is that handler (C12_inproc_resolve), everything else is Unimplemented; for HTTP, path.Join(base, name) gives the same clean path on client and server for every base and is injective in (svc, mth). Tie: facts regenerated; differential run of Invoke/NewStream on name shapes x random registries; end-to-end HTTP through Server and HandleServices with several base paths, per-method handler counters.",
+  "level_note": "Trusted: Lean kernel; extractor; harness+driver; ServeMux, net/url, path.Clean.",
+  "assumptions": ["the registry holds one entry per service name (C15)"],
+ },
 }
